@@ -9,22 +9,22 @@ V = "/verif"
 AREAS = {
  "C01": "`int128` (both types, one line per call) + a second pass histogramming dispatch path x correction counts",
  "C02": "`conv`, `f64` (model vs hardware), `words` (big.Int word slices before/after, 64- and 32-bit builds), `format` (Format through a harness fmt.State, Sprintf and Sscanf read-back), `glue` oracle (fmt/JSON/YAML/Scan vs math/big); source facts regenerated into `Generated/C02Facts.lean`; overlay accessor for private constants with black-box fallback",
- "C03": "`fx` (representable), `fxwrap` (overflow, model-vs-code only), `fxfloat` oracle (big.Rat bound); overlay accessor for f128 raw data",
+ "C03": "`fx` (exact result representable - classified by the result, not by a margin), `fxwrap` (overflow, model-vs-code only), `fxfloatm` (float conversions through the model), `fxfloat` oracle (big.Rat bound), twin comparison f64 vs f128; conversion-constant tie `c03facts` -> `Props/C03Conv.lean`; overlay accessor for f128 raw data",
  "C04": "`val`, `parse` (plain, exponent, hexadecimal and underscore texts - all modelled), `as`, `txtfn`, `fltm`; oracles `float`, `exp`, `misc`",
  "C05": "per-call validation: `lattice` (exhaustive per call), `general` (margin-checked sample points), fixed `degenerate` corpus; transcribed stages `prune`, `emit`, `sbt`, `lmt` (overlay accessors, stub fallback), `contains` (library point tests)",
  "C06": "`rbtree` histories (results; compare counts judged against the property's bound; functional and pointer-level model in lock step), overlay `dump`/`inv`",
  "C07": "`quadtree` (Int / exact Rat), `quadwrap` (Int64 model, ends of the int64 range), `quadfloat` (IEEE-double model, non-dyadic floats); oracles `floatscan`, `intwrap`",
  "C08": "`bitset` histories on two sets (mutators print Count + a hash of the canonical words; every line also through the access-checked machine-int model), `popcnt` (Go countSetBits via overlay vs model vs popcount)",
- "C09": "`struct` (symbolic operators), `val` (tree walk, independent reference), `wf` oracle, `fxval` and `flval` (model computes fixed / float64 / float32 values; float compared bit for bit, also on a reused evaluator)",
- "C10": "`parse` with child processes for exits and response files on disk, `ax` (process ends through atexit: Exit, Fatal*, Parse outcomes), `gs`/`gf` lines (GeneralValue String / failing Set stores)",
+ "C09": "`struct` (symbolic operators), `val` (tree walk, independent reference), `wf` oracle, `fxval` and `flval` (model computes fixed / float64 / float32 values; float compared bit for bit, also on a reused evaluator), `state` (advisory white-box stack dump after every call)",
+ "C10": "`parse` with child processes for exits and response files on disk (float and duration values computed by the model), `ax` (process ends through atexit), `gs`/`gf` lines; `bufio.MaxScanTokenSize` regenerated into `Generated/C10Facts.lean`",
  "C11": "`errs` histories over named variables (pointer identity, every variable printed; Is/As/Recovery/Log* ops), `trace` (whole Detail text over real frames taken with runtime.Callers), `fmt` oracle",
- "C12": "`rot` (whole directory after every op, deadline per Write), `rotdef`, `stress` oracle (+ `-race`)",
- "C13": "`log` histories (derivation trees, scripted children incl. reused sentinel errors), `stress` oracle (`-race`)",
+ "C12": "`rot` (whole directory after every op, deadline per Write; restarts, also with other limits), `rotf` (real faults: immutable slots, a file where the directory should be, RLIMIT_FSIZE), `rotfd` (descriptor closed behind the rotator's back), `rotdef`, `stress` oracle (+ `-race`); call-inventory tie `c12facts` -> `Generated/RotationCalls.lean` -> `Props/C12Calls.lean`",
+ "C13": "`log` histories (derivation trees, nested multilog handlers, scripted children incl. reused sentinel errors, the library's own stackValue), `rec` (errs.Recovery call by call), `sched` scripts (forced schedules, exhaustion = inconclusive), `stress` oracle (`-race`); facts tie `c13facts` -> `Props/C13Facts.lean`",
  "C14": "`api`, `duo` (two handles), `wf` (callback modes, in-process write faults), `trace` / `hist` / `multi` (strace: sequences, histories with faults on any call, multi-fault, SIGKILL at every syscall)",
  "C15": "`cfg` (New's options vs TQNew.newCfg), `forced` schedules (model explores all interleavings per line), `stress` oracle in child processes incl. simultaneous first use, channel-protocol tie `c15facts` -> `Generated/C15Facts.lean` -> `Props/C15Chan.lean`",
- "C16": "`burst` (lock step with observed ticks, SetCap patterns), `stress` oracle in child processes",
- "C17": "`notifier`, `nwb` (white-box dump), `race` oracle",
- "C18": "`rect`, `matrix`, `poly` (exact dyadics), `rotate` oracle, `floatspec` oracle (point-set specs on extreme representable points)",
+ "C16": "`burst` (lock step with observed ticks; whole private state compared after every call; `rwin` read-lock windows, `chancap`), `window` (forced Close-vs-tick schedules, all interleavings by RL.explore), `stress` oracle in child processes (+ `-race`)",
+ "C17": "`notifier` (re-entrant targets at any depth, merges in both directions), `nwb` (white-box dumps of all three maps about every third operation, source dumped after a merge), `race` oracle judged twice (Go judge and `drv_c17 lin` against the mutex machine)",
+ "C18": "`rect` (`ri`/`rf` exact, `rw` Int64 with wrap-around, `rd` IEEE double bit for bit), `arith` (`ai`/`af`/`aw`), `matrix`, `poly` (exact dyadics; `pd` Bounds in source form at double), oracles `rotate`, `floatspec`, `compose`",
  "C19": "`extract` (whole sandbox tree under and beside the destination; payload, CRC and write-limit faults), `dstform` (destination spellings, removed working directory), `closefault` (strace-injected close failure), `guard` (EnsureNoSymlinks through an overlay accessor), `dstlinkm`",
  "C20": "`natsort` (pairs, NaturalLess, both sort functions), `rows` (all 256x256 byte pairs in 16 contexts, both modes)",
 }
